@@ -97,8 +97,8 @@ def gen_docs(ctx, quick):
     pair = core.generate(ctx, "InteropGen", "GenInteropPair.cfg", timeout=900)
     global EXT
     EXT = core.generate(ctx, "InteropGen", "GenInteropExt.cfg", timeout=900)
-    rnd = core.generate(ctx, "InteropGen", "GenInteropRandom.cfg", num=40 if quick else 600, depth=20, seed=ctx.seed * 100 + 11)
-    awk = core.generate(ctx, "InteropGen", "GenInteropRandomAwk.cfg", num=20 if quick else 300, depth=20, seed=ctx.seed * 100 + 12)
+    rnd = core.generate(ctx, "InteropGen", "GenInteropRandom.cfg", num=40 if quick else 400, depth=20, seed=ctx.seed * 100 + 11)
+    awk = core.generate(ctx, "InteropGen", "GenInteropRandomAwk.cfg", num=20 if quick else 200, depth=20, seed=ctx.seed * 100 + 12)
     return field, epa, epb, pair, rnd, awk
 
 
@@ -173,10 +173,12 @@ def judge(ctx, pid, scn, events, prints, family="interop"):
                 st, msg = stage_msg.get(p["t"], ("", ""))
                 what = "scenario %d, %s %s: %s at stage %s: %s; document %s" % (p["t"], s["dir"], s["fmt"], name, st, (msg or "")[:300], json.dumps(s["doc"])[:700])
                 detail = norm_msg(msg)
-                if name == "NotRepeatable":
+                if "circular schema reference not handled" in (msg or ""):
+                    detail = "kin-openapi-circular-schema-reference"
+                elif name == "NotRepeatable":
                     shared = any(shared_array_param(s["doc"], ["P", "", q["name"], "", "", "1"]) for e in s["doc"]["eps"] for q in e["params"] if q["arr"])
                     detail = "array-parameter-name-shared-by-operations" if shared else "plain"
-                if name == "OutputDoesNotCompile":
+                if name == "OutputDoesNotCompile" and detail != "kin-openapi-circular-schema-reference":
                     detail = syntax_class(last_text.get((p["t"], "import")) or last_text.get((p["t"], "compile")))
                 core.add_violation(ctx, "%s/%s/%s" % (pre, name, detail), what,
                                    {"family": family, "scenario": s, "text": (last_text.get((p["t"], "render")) or last_text.get((p["t"], "compile")) or "")[:3000]})
